@@ -30,6 +30,7 @@ type c10plan struct {
 	kind    string           // none | json | raw
 	body    *JS
 	bname   string
+	comp    string // the component response the operation refers to ("" when defined in place)
 }
 
 var c10HeaderNames = []string{"X-Count", "X-Next", "X-Rate-Limit", "ETag", "X-Request-Uuid", "Location", "x-lower", "X-Ids"}
